@@ -1,5 +1,5 @@
 CFG = {
-    "lean_targets": ["Norad.Props.C11"],
+    "lean_targets": ["Norad.Props.C11", "Norad.Props.Small"],
     "audit": "Norad/Audit/C11.lean",
     "extract": "contour_automaton",
     "rule": ("all sequences over {move,line,offcurve,curve,qcurve} up to length 7 (quick) / 9 (thorough), format 2; "
